@@ -980,7 +980,7 @@ def read_wiring(name):
     return cap, words
 
 
-def run_wasm(env, name, seqs, scripted=True):
+def run_wasm(env, name, seqs, scripted=True, srcmode="heap"):
     """seqs: list of (seq id, [(prog id, src)]).  Returns {seq id: [records]}, error text.
     scripted: execute the wiring read from the current wasm/src/lib.rs (else the literal copy
     of the entry point kept in the harness)."""
@@ -990,6 +990,7 @@ def run_wasm(env, name, seqs, scripted=True):
         if scripted:
             cap, words = read_wiring("wasm")
             f.write("W %d %s\n" % (cap, " ".join(words)))
+            f.write("M %s\n" % srcmode)
         for sid, ps in seqs:
             f.write("S %s\n" % sid)
             for pid, src in ps:
@@ -1131,10 +1132,10 @@ def stream_sequences(env, progs, res, n_seq, seq_len, recs):
     res["extra"]["programs_crashing_standalone_in_replica"] = crashed
 
 
-def sequence_fails(env, srcs):
+def sequence_fails(env, srcs, srcmode="heap"):
     """True when the last program of the sequence behaves differently than alone."""
     seqs = [("q", [("%d" % i, s) for i, s in enumerate(srcs)]), ("l", [("0", srcs[-1])])]
-    got, err = run_wasm(env, "shr", seqs)
+    got, err = run_wasm(env, "shr", seqs, srcmode=srcmode)
     q, l = got.get("q", []), got.get("l", [])
     if err or len(l) != 1 or l[0]["end"] != "ok":
         return False
@@ -1155,6 +1156,131 @@ def shrink_sequence(env, srcs):
         else:
             i += 1
     return cur
+
+
+# ------------------------------------------------------------------------------------------
+# scripts of identical shape and length run back to back (edit a constant, press Run again)
+
+TOKEN_RE = re.compile(r'(?P<str>"(?:[^"\\]|\\.)*")|(?P<com>#[^\n]*)|(?P<num>\b\d+(?:\.\d+)?\b)|(?P<bool>\btrue (?=\S)|\bfalse\b)|(?P<id>\b[a-z]\d+\b)')
+ID_MAP = str.maketrans("nsawbrfpiv", "ghjkltuqoe")
+
+
+def same_shape_variant(rng, src, what, only=None):
+    """A script with the same byte length and the same token offsets as src in which the literals of
+    kind `what` ('num' | 'str' | 'bool' | 'id' | 'all') carry other content.  only=k: just the k-th
+    such token is changed (scripts that differ in one token)."""
+    count = [0]
+
+    def rep(m):
+        kind = m.lastgroup
+        if kind == "com" or (what != "all" and kind != what):
+            return m.group(0)
+        t = m.group(0)
+        if kind == "num":
+            new = "".join(rng.choice([d for d in "123456789" if d != c]) if c in "123456789" else c for c in t)
+        elif kind == "str":
+            if "{" in t or "\\" in t or not t.isascii():
+                return t
+            new = "".join(chr((ord(c) - 97 + 7) % 26 + 97) if c.islower() else (chr((ord(c) - 65 + 5) % 26 + 65) if c.isupper() else c) for c in t)
+        elif kind == "bool":
+            new = "false" if t.startswith("true") else "true "
+        else:
+            new = t.translate(ID_MAP) if what in ("id", "all") else t
+        if new == t:
+            return t
+        count[0] += 1
+        if only is not None and count[0] - 1 != only:
+            return t
+        return new
+
+    out = TOKEN_RE.sub(rep, src)
+    assert len(out.encode()) == len(src.encode())
+    return out, count[0]
+
+
+SHAPE_TEMPLATES = [
+    'make x get 20\nshout(x add 1)\n',
+    'make t get 10\nmake i get 0\njasi (i small pass 5) start\n    t get t add 37 times i minus 4\n    i get i add 1\nend\nshout(t)\nshout(t add 2.5)\n',
+    'make s get "ada"\nshout(s add "chi")\nshout(s.len() add 40)\nshout("Bola is {s}")\n',
+    'do f1(p1, p2) start\n    return p1 times 11 add p2\nend\nshout(f1(12, 13))\nshout(f1(24, 25) add 26)\n',
+    'make a get [10, 20, 30]\na[1] get 44\nshout(a)\nshout(a[2] minus 15)\nmake w get ["ada", "chi", "obi"]\nshout(w.join("xy"))\n',
+    'make b get true and (31 pass 22)\nif to say (b) start\n    shout(51)\nend\nif not so start\n    shout(62)\nend\nshout(false or (14 na 14))\n',
+    'make n get 12.5\nshout(n divide 2.5)\nshout((n add 17) mod 4)\nshout(to_string(99) add "zed")\n',
+]
+
+
+def stream_same_shape(env, progs, res):
+    rng = env.rng
+    bases = list(SHAPE_TEMPLATES)
+    oks = [src for kind, src in progs if kind == "ok" and len(src) < 1500]
+    bases += oks[:(10 if env.tier == "quick" else 120)]
+    families = []
+    for b in bases:
+        fam = [b]
+        for what in ("num", "str", "id", "bool", "all"):
+            v, n = same_shape_variant(rng, b, what)
+            if n and v not in fam:
+                fam.append(v)
+            if n > 1:
+                v1, _ = same_shape_variant(rng, b, what, only=rng.randrange(n))     # one token only
+                if v1 not in fam:
+                    fam.append(v1)
+        if len(fam) > 1:
+            families.append(fam)
+    stats = {"families": len(families), "scripts": sum(len(f) for f in families), "runs": 0, "failed": 0}
+    for mode in ("heap", "arena"):
+        singles, idx = [], {}
+        for fi, fam in enumerate(families):
+            for vi, src in enumerate(fam):
+                idx[(fi, vi)] = "a%d_%d" % (fi, vi)
+                singles.append((idx[(fi, vi)], [("0", src)]))
+        got, err = run_wasm(env, "shape_alone_" + mode, singles, srcmode=mode)
+        if err:
+            res["disagreements"].append({"stream": "same-shape-sequences", "error": "harness failed: " + err[-300:]})
+            return
+        seqs = []
+        for fi, fam in enumerate(families):
+            order = [0, 1, 0] + list(range(2, len(fam))) + [1, len(fam) - 1, 0]
+            seqs.append(("q%d" % fi, [("%d" % vi, fam[vi]) for vi in order]))
+        sgot, err = run_wasm(env, "shape_seq_" + mode, seqs, srcmode=mode)
+        if err:
+            res["disagreements"].append({"stream": "same-shape-sequences", "error": "harness failed: " + err[-300:]})
+            return
+        for fi, fam in enumerate(families):
+            sid, ps = seqs[fi]
+            rs = sgot.get(sid, [])
+            res["evaluations"] += 1
+            bad = None
+            for k, (vid, src) in enumerate(ps):
+                al = got.get(idx[(fi, int(vid))], [])
+                if len(al) != 1 or al[0]["end"] != "ok":
+                    break                                  # crashes alone: not this property's business
+                stats["runs"] += 1
+                if k >= len(rs) or rs[k]["end"] != "ok":
+                    bad = (k, "run %d of the sequence ended with %s where the stand-alone run is fine" % (k, rs[k]["end"] if k < len(rs) else "nothing"))
+                elif rs[k]["res"] != al[0]["res"] or rs[k]["printed"] != al[0]["printed"]:
+                    bad = (k, "after scripts of the same shape, run %d returns %r; alone it returns %r"
+                           % (k, unhx(rs[k]["res"])[-160:], unhx(al[0]["res"])[-160:]))
+                elif rs[k].get("after") != "0,0,0,0":
+                    bad = (k, "scratch arenas not restored after run %d: %s" % (k, rs[k].get("after")))
+                if bad:
+                    break
+            if bad:
+                stats["failed"] += 1
+                k, why = bad
+                if sum(1 for f in res["failures"] if f.get("stream") == "same-shape-sequences") < 4:
+                    seq = [src for _, src in ps[:k + 1]]
+                    # keep only what is needed: the failing script and the earlier one that poisons it
+                    for j in range(k):
+                        if sequence_fails(env, [seq[j], seq[-1]], srcmode=mode):
+                            seq = [seq[j], seq[-1]]
+                            break
+                    res["failures"].append({"key": "same-shape:" + common.chash("\x00".join(seq) + mode), "stream": "same-shape-sequences",
+                                            "case": {"sequence": seq, "source": mode}, "observed": why + " (source text %s)" %
+                                            ("copied into the scratch arena first, as `naija -` does" if mode == "arena" else "in a heap string per call, as the playground does")})
+            else:
+                res["_nontrivial"].add("shape:%s:%s" % (mode, common.chash("\x00".join(fam))))
+    res["extra"]["same_shape_sequences"] = stats
 
 
 # ------------------------------------------------------------------------------------------
@@ -1629,6 +1755,7 @@ def correspond(env, searching=False, model=True):
     stream_invalid(env, [x for x in scripts if not x[2]], res)
     progs = progs[:n_small]
     stream_sequences(env, progs, res, n_seq, seq_len, recs)
+    stream_same_shape(env, progs, res)
     stream_stdin_runs(env, res)
     stream_scratch(env, res, n_hist, model, searching)
     res["distinct_nontrivial"] = len(res.pop("_nontrivial"))
@@ -1706,7 +1833,7 @@ def replay(env, payload):
         print(r)
         bad = bool(err) or not r or r[0].get("after") != "0,0,0,0"
     elif "sequence" in inner:
-        bad = sequence_fails(env, inner["sequence"])
+        bad = sequence_fails(env, inner["sequence"], srcmode=inner.get("source", "heap"))
         print("sequence of %d programs; last one:\n%s" % (len(inner["sequence"]), inner["sequence"][-1]))
     elif case.get("history"):
         common.build_nsmodel()
